@@ -368,13 +368,16 @@ pub struct SweepWorld<'a> {
     pub approved: Vec<(&'static str, &'static str, Address)>,
     /// id under which the gas asset is registered as canonical (the service holds `CUSTODY` of it)
     pub canonical_id: [u8; 32],
+    /// (message id, payload) of an approved, conforming hub message for the token service (only in worlds built for
+    /// rules that can tell a legitimate delivery apart)
+    pub inbound: Option<(&'static str, Vec<u8>)>,
 }
 
 pub const CUSTODY: i128 = 7_000;
 
 pub const TRUSTED: &str = "ethereum";
 
-pub fn build_world<'a>(open_windows: u8, symbols: &[String]) -> SweepWorld<'a> {
+pub fn build_world<'a>(open_windows: u8, symbols: &[String], with_inbound: bool) -> SweepWorld<'a> {
     let w = build_its_world("stellar", "hub-address", 0);
     let env = w.env.clone();
     w.trust(TRUSTED);
@@ -451,6 +454,15 @@ pub fn build_world<'a>(open_windows: u8, symbols: &[String]) -> SweepWorld<'a> {
         })
         .collect();
     w.gw.approve(&env, &w.set, &msgs).expect("approve");
+    let inbound = if with_inbound {
+        // (the canonical token: the service-deployed one was deployed in the configuration of known finding C11 and cannot be minted)
+        let inner = crate::oracle::AMsg::Transfer { token_id: canonical_id, source: vec![7, 7], dest: address_xdr(&env, &user_b), amount: crate::oracle::word_u128(3), data: vec![] };
+        let payload = ItsWorld::receive_payload(TRUSTED, &inner);
+        w.approve_for_its(HUB_CHAIN, "msg-9", "hub-address", &payload).expect("approve inbound");
+        Some(("msg-9", payload))
+    } else {
+        None
+    };
     let accounts = vec![
         w.gw.owner.clone(),
         w.gw.operator.clone(),
@@ -470,7 +482,7 @@ pub fn build_world<'a>(open_windows: u8, symbols: &[String]) -> SweepWorld<'a> {
     names.sort();
     names.dedup();
     env.set_auths(&[]);
-    SweepWorld { w, ops, ops_owner, ops_operator, upgrader, example, t1, t1_id, t2, t2_owner, minter, user_a, user_b, stranger, accounts, contracts, names, gas2, approved, canonical_id }
+    SweepWorld { w, ops, ops_owner, ops_operator, upgrader, example, t1, t1_id, t2, t2_owner, minter, user_a, user_b, stranger, accounts, contracts, names, gas2, approved, canonical_id, inbound }
 }
 
 impl<'a> SweepWorld<'a> {
@@ -677,7 +689,7 @@ impl Rule {
         match self {
             Rule::Announce => e.contract == "axelar-gateway" || e.contract == "example" || e.contract == "interchain-token-service",
             Rule::GasOut => e.contract == "axelar-gas-service" || e.types.iter().any(|t| t == "Token"),
-            Rule::Roles => ["transfer_", "add_", "remove_", "set_", "upgrade", "migrate"].iter().any(|p| e.name.starts_with(p)),
+            Rule::Roles => ["transfer_", "add_", "remove_", "set_", "upgrade", "migrate"].iter().any(|p| e.name.starts_with(p)) || (e.name == "execute" && e.contract == "interchain-token-service"),
             Rule::Code => e.name.contains("upgrade") || e.name.contains("migrate"),
             Rule::Proofless => e.contract == "axelar-gateway",
             Rule::Consume => e.name.contains("validate_message"),
@@ -744,7 +756,7 @@ struct Obs {
 
 pub fn run(case: &SweepCase, cx: &mut Cx, rule: Rule) -> Result<(), String> {
     let all = scan_names();
-    let sw = build_world(case.open_windows, &all);
+    let sw = build_world(case.open_windows, &all, rule == Rule::Roles);
     if !step(&sw, &case.ep, &case.seeds, case.pick, cx, rule)? {
         return Ok(());
     }
@@ -772,6 +784,17 @@ fn step(sw: &SweepWorld, ep: &Ep, seeds: &[u64], pick: u64, cx: &mut Cx, rule: R
     }
     if args.len() as usize != ep.types.len() {
         return Ok(false);
+    }
+    // a delivery to the token service: in half of the cases exactly the approved, conforming hub message
+    if let Some((mid, payload)) = &sw.inbound {
+        if ep.contract == "interchain-token-service" && ep.name == "execute" && ep.types == ["String", "String", "String", "Bytes"] && seeds.first().map(|s| s % 2 == 0).unwrap_or(false) {
+            args = SVec::new(&env);
+            args.push_back(sstr(&env, HUB_CHAIN).into_val(&env));
+            args.push_back(sstr(&env, mid).into_val(&env));
+            args.push_back(sstr(&env, "hub-address").into_val(&env));
+            args.push_back(Bytes::from_slice(&env, payload).into_val(&env));
+            cx.label("sweep_conforming_inbound_delivery");
+        }
     }
     // call forwarding (target: Address, func: Symbol, args: Vec<Val>): in half of the cases the three are chosen
     // together, so that the forwarded call names a real entry point of the target with well-typed arguments
